@@ -73,7 +73,9 @@ def opC01Pipe : List String → Res
       -- each Read(p) hands out at most len(p) bytes of the pending frame
       let pieces := frames.flatMap (fun f => readPieces bufLen f.length f)
       let out := printed (clientMsgsF frames.flatten)
+      -- in plain mode what the client prints is the property's observable: the content (a final newline added)
       { m := joinWith "," (pieces.map hexOf) ++ ";" ++ hexOf out,
+        s := if plain then hexOf (insertNL m 0 bs) else "-",
         g := if plain then c01sig m bs else "-", t := c01tags m bs }
     | _, _, _ => bad
   | _ => bad
@@ -419,6 +421,16 @@ def opC09Keys : List String → Res
         ++ (if last.isNone ∧ !lines.isEmpty then ["trailing-noise"] else []) ++ (if lines.length > 3 then ["long"] else [])) }
   | _ => bad
 
+/-- the whole callback: a session only for a key some line of the user's key file carries — and for no key at
+    all when that file cannot be found or read -/
+def opC09Callback : List String → Res
+  | [wher, specs, nl, offered] =>
+    if wher = "cache" then
+      let r := opC09Keys [specs, nl, offered]
+      { r with t := joinWith "," (["callback"] ++ (if r.t = "" ∨ r.t = "-" then [] else [r.t])) }
+    else { m := "reject", s := "reject", t := "callback,keyfile-" ++ wher }
+  | _ => bad
+
 def parseJobs (s : String) : List Job × List Job :=
   if s = "-" then ([], []) else
   let js := (s.splitOn ";").filterMap fun j => match j.splitOn ":" with
@@ -516,6 +528,18 @@ def opC17Wrap : List String → Res
     let v := wrapDecision st (trustAll = "1") ans
     let r := render v
     { m := r, s := r, t := s!"{state},{if trustAll = "1" then "trustall" else "ask"}" }
+  | _ => bad
+
+/-- a whole client, built as cmd/dcat builds it: which host key check is in force must not depend on where the user's
+    private key comes from; only the programmatic case (auth methods handed in) skips the check -/
+def opC17Client : List String → Res
+  | [auth, trustAll, state, answer] =>
+    let st := if state = "known" then HostState.known else .unknown
+    let v := if auth = "preset" then Verdict.proceed else wrapDecision st (trustAll = "1") [str answer]
+    let proceed := v == .proceed
+    let recorded := state = "known" ∨ (proceed ∧ auth ≠ "preset")
+    let r := s!"session={boolStr proceed};commands={boolStr proceed};recorded={boolStr recorded};keptother=true"
+    { m := r, s := r, t := s!"client,{auth},{state},{if trustAll = "1" then "trustall" else "ask"}" }
   | _ => bad
 
 /-! C08 -/
@@ -945,6 +969,13 @@ def c14op (r : C14Run) (op : String) : C14Run × Bool :=
   | some 'S' => match c14lookup r i, phase r with
     | some k, some .authenticated => (c14step r (.shell k), true)
     | _, _ => (r, false)
+  -- Q / U: a flood of channel requests, then the client goes away: for the accounting a shell request (Q) and the end
+  -- of the connection
+  | some 'Q' | some 'U' => match c14lookup r i, phase r with
+    | some k, some .authenticated =>
+      let r := if op.startsWith "Q" then c14step r (.shell k) else r
+      ({ c14step r (.close k) with handshaken := r.handshaken.filter (· != i) }, true)
+    | _, _ => (r, false)
   | some 'X' => match c14lookup r i, phase r with
     | some k, some .authenticated => ({ c14step r (.close k) with handshaken := r.handshaken.filter (· != i) }, true)
     | some k, some .handshaking => (c14step r (.handshakeFail k), true)
@@ -966,6 +997,7 @@ def opC14Script : List String → Res
         s := (if top ≤ max ∧ low ≥ 0 then "bounded" else "OUT-OF-BOUNDS") ++ ";final=0",
         t := joinWith "," ((if r.st.conns.contains .refused then ["refused"] else []) ++ (if opl.any (·.startsWith "B") then ["badcred"] else [])
           ++ (if opl.any (·.startsWith "S") then ["shell"] else []) ++ (if opl.any (·.startsWith "T") then ["rawtcp"] else [])
+          ++ (if opl.any (fun o => o.startsWith "Q" ∨ o.startsWith "U") then ["request-flood"] else [])
           ++ (if obs.any (·.startsWith s!"{max}/") then ["full"] else [])) }
     | none => bad
   | _ => bad
@@ -1225,6 +1257,18 @@ def opC04Tail : List String → Res
     | _, _ => bad
   | _ => bad
 
+/-- the follow as the server runs it, with a forced re-open between appends (step `M`): every appended line once, in
+    order — a re-open adds nothing and loses nothing, since nothing is appended while the file is away -/
+def opC04Follow : List String → Res
+  | [m, _pre, steps] => match m.toNat? with
+    | some m =>
+      let chunks := (steps.splitOn ",").filterMap fun st => if st.startsWith "W" then unhex (st.drop 1).toString else none
+      let lines := (tailRead m chunks).out
+      let r := if lines.isEmpty then "none" else joinWith "," (lines.map hexOf)
+      { m := r, s := r, t := joinWith "," ((if (steps.splitOn ",").any (· == "M") then ["reopen"] else []) ++ (if chunks.length > 1 then ["chunked"] else [])) }
+    | none => bad
+  | _ => bad
+
 /-! C02 -/
 
 def parseSizes (s : String) : Option (List Nat) := (s.splitOn "+").mapM (·.toNat?)
@@ -1304,6 +1348,16 @@ def opC02Many : List String → Res
     | some n, some first =>
       let want := "0;" ++ joinWith "&" ((List.range n).map fun i => s!"f{i}=1.." ++ toString (if i = 0 then first else 3))
       { m := obs, s := want, t := joinWith "," [transport, "many-files"] }
+    | _, _ => bad
+  | _ => bad
+
+/-- files the reader cannot start on, in the middle of a session whose first reader is held back: the files queued
+    behind them arrive completely and the session ends by itself -/
+def opC02Bad : List String → Res
+  | [transport, _bad, n, first, _hold, obs] => match n.toNat?, first.toNat? with
+    | some n, some first =>
+      let want := "0;" ++ joinWith "&" ((List.range (n + 1)).map fun i => s!"f{i}=1.." ++ toString (if i = 0 then first else 3 + (i - 1)))
+      { m := obs, s := want, t := joinWith "," [transport, "unreadable-files"] }
     | _, _ => bad
   | _ => bad
 
@@ -1494,9 +1548,11 @@ def dispatch (line : String) : Res :=
   | "c02.session" :: a => opC02Session a
   | "c02.e2e" :: a => opC02E2E a
   | "c02.many" :: a => opC02Many a
+  | "c02.bad" :: a => opC02Bad a
   | "c02.eofstall" :: a => opC02EofStall a
   | "c04.perc" :: a => opC04Perc a
   | "c04.tail" :: a => opC04Tail a
+  | "c04.follow" :: a => opC04Follow a
   | "c05.agg" :: a => opC05Agg a
   | "c06.report" :: a => opC06Report a
   | "c06.fifo" :: a => opC06Fifo a
@@ -1510,6 +1566,7 @@ def dispatch (line : String) : Res :=
   | "c08.perm" :: a => opC08Perm a
   | "c08.cat" :: a => opC08Cat a
   | "c09.keys" :: a => opC09Keys a
+  | "c09.callback" :: a => opC09Callback a
   | "c09.password" :: a => opC09Password a
   | "c09.pwseq" :: a => opC09PwSeq a
   | "c09.health" :: a => opC09Health a
@@ -1527,10 +1584,12 @@ def dispatch (line : String) : Res :=
   | "c15.write" :: a => opC15Write a
   | "c15.race" :: a => opC15Race a
   | "c16.colorfy" :: a => opC16Colorfy a
+  | "c16.race" :: _ => { m := "same", s := "same", t := "concurrent-servers" }
   | "c16.write" :: a => opC16Write a
   | "c16.table" :: a => opC16Table a
   | "c17.trust" :: a => opC17Trust a
   | "c17.wrap" :: a => opC17Wrap a
+  | "c17.client" :: a => opC17Client a
   | "c18.list" :: a => opC18List a
   | "c18.file" :: a => opC18File a
   | "c18.filter" :: a => opC18Filter a
